@@ -654,6 +654,45 @@ func unmarshalPairs(repo, file, fn, lean string) string {
 // effectOrder lists, in source order, which of the named effects (a name and the text its call or
 // statement starts with / contains) occur in the body of a function: the order in which the function
 // performs them. An effect that does not occur is left out (and the equality lemma fails).
+// nilGuardInRange: does the loop `for _, v := range <rangeExpr>` of fn begin by leaving out nil members
+// (`if v == nil { continue }` as its first statement)?
+func nilGuardInRange(repo, file, fn, rangeExpr, lean, doc string) string {
+	f, err := parser.ParseFile(fset, filepath.Join(repo, file), nil, 0)
+	if err != nil {
+		die("%s: %v", file, err)
+	}
+	fd := findFunc(f, fn)
+	if fd == nil {
+		die("%s: function %s not found", file, fn)
+	}
+	loops, guarded := 0, 0
+	ast.Inspect(fd.Body, func(n ast.Node) bool {
+		rs, ok := n.(*ast.RangeStmt)
+		if !ok || src(rs.X) != rangeExpr {
+			return true
+		}
+		loops++
+		v, ok := rs.Value.(*ast.Ident)
+		if !ok || len(rs.Body.List) == 0 {
+			return true
+		}
+		is, ok := rs.Body.List[0].(*ast.IfStmt)
+		if !ok || is.Init != nil || is.Else != nil || len(is.Body.List) != 1 {
+			return true
+		}
+		c := strings.ReplaceAll(src(is.Cond), " ", "")
+		br, ok := is.Body.List[0].(*ast.BranchStmt)
+		if ok && br.Tok == token.CONTINUE && br.Label == nil && (c == v.Name+"==nil" || c == "nil=="+v.Name) {
+			guarded++
+		}
+		return true
+	})
+	if loops != 1 {
+		die("%s: %s: expected one loop over %s, found %d", file, fn, rangeExpr, loops)
+	}
+	return fmt.Sprintf("/-- generated from %s, func %s: %s -/\ndef %s : Bool := %v\n\n", file, fn, doc, lean, guarded == 1)
+}
+
 func effectOrder(repo, file, fn, lean string, effects [][2]string) string {
 	f, err := parser.ParseFile(fset, filepath.Join(repo, file), nil, 0)
 	if err != nil {
@@ -785,6 +824,10 @@ func main() {
 			return effectOrder(repo, bs, "Close", "closeOrder", [][2]string{
 				{"guard", "b.isClosed()"}, {"cancel", "b.cancel()"}, {"unregister", "b.closeFunc()"},
 				{"stop", "Replicator().Stop()"}, {"cacheclose", "b.Cache().Close()"}})
+		}},
+		{"GenDocs", func() string {
+			return nilGuardInRange(repo, "stores/operation/operation.go", "GetDocs", "o.Docs", "getDocsSkipsNil",
+				"the members of a decoded PUTALL batch are handed on only if they are not nil")
 		}},
 		{"GenSync", func() string {
 			return effectOrder(repo, bs, "Sync", "syncOrder", [][2]string{
